@@ -379,6 +379,10 @@ def _child(case, cdir):
         if case.get('prerun_argv'):     # an earlier call in the SAME process on another input, writing to the same output path
             arm(None, 'prerun')
             tm.run_multiome_tagging_cmd(list(case['prerun_argv']))
+        if case.get('swap_from'):       # the input file is REPLACED (same path, other content) between the two calls
+            import shutil as _sh
+            _sh.copyfile(case['swap_from'], case['inp'])
+            _sh.copyfile(case['swap_from'] + '.bai', case['inp'] + '.bai')
         if case.get('prerun'):          # a complete earlier run of the same command leaves output, index and status on disk
             arm(None, 'prerun')
             tm.run_multiome_tagging_cmd(list(case['argv']))
